@@ -1153,7 +1153,9 @@ func (d *DotGit) readReferenceFrom(rd io.Reader, name string) (ref *plumbing.Ref
 		return nil, ErrEmptyRefFile
 	}
 
-	line := strings.TrimSpace(string(b))
+	// git strips ASCII white space only (isspace); strings.TrimSpace would
+	// also eat e.g. a trailing U+00A0 of a symbolic reference target.
+	line := strings.Trim(string(b), " \t\n\v\f\r")
 	return plumbing.NewReferenceFromStrings(name, line), nil
 }
 
